@@ -86,7 +86,7 @@ type vfPeer struct {
 	nhandle  int
 	exts     []vfExt
 	version  uint32
-	batch    int // READDIR batch size
+	batch    int   // READDIR batch size
 	sizeSkew int64 // added to every size reported by STAT/LSTAT/FSTAT
 	reqs     []vfPeerReq
 	maxOut   int // largest number of replies held at once
